@@ -16,6 +16,7 @@ import (
 	"runtime/debug"
 	"sort"
 	"strings"
+	"time"
 
 	"github.com/LemoFoundationLtd/lemochain-core/chain/types"
 	"github.com/LemoFoundationLtd/lemochain-core/common"
@@ -49,10 +50,33 @@ type sys struct {
 	blocks []*types.Block // by id, 0 = the initial stable block
 	ids    map[common.Hash]int
 	seq    int
+	hist   int  // number of resets so far: every behaviour gets its own (fresh, absent on disk) addresses
+	soft   bool // reuse the open database between behaviours (see reset)
+	dirty  bool // an operation did not return (panic): the database is in an unknown state
+}
+
+// quiesce waits until the asynchronous writer of the store (FileQueue -> bitcask) has drained.  Close()
+// with writes still queued leaves the writer goroutine blocked for ever on its error channel (with ~4 MB
+// of channel buffers each); shutdown/crash behaviour is C08's subject, here the database is closed quiescent.
+func (s *sys) quiesce() {
+	q := s.db.Beansdb.Queue
+	for i := 0; ; i++ {
+		q.IndexRW.RLock()
+		n := len(q.Index)
+		q.IndexRW.RUnlock()
+		if n == 0 && len(q.SyncFileDB.WriteChan) == 0 && len(q.DoneChan) == 0 {
+			return
+		}
+		if i > 100000 {
+			engine.Failf("store write queue did not drain (%d items)", n)
+		}
+		time.Sleep(50 * time.Microsecond)
+	}
 }
 
 func (s *sys) closeDB() {
 	if s.db != nil {
+		s.quiesce()
 		s.db.Close()
 		s.db = nil
 	}
@@ -76,53 +100,95 @@ func errStr(err error) string {
 	return err.Error()
 }
 
-// reset: a database whose stable block persists sv (0 = account absent), closed and reopened, so that it
-// is in the state of a node that has just started: persisted accounts, empty in-memory trie.
+// variant gives behaviour k its own copy of the address table: nibbles 24..31 (zero in every table entry,
+// so all pairwise common-prefix lengths are unchanged) carry k.
+func variant(hex40 string, k int) string {
+	return hex40[:24] + fmt.Sprintf("%08x", k) + hex40[32:]
+}
+
+// reset puts the real system into the initial state of a behaviour: a stable block (id 0) that persists
+// sv (0 = account absent), no unconfirmed blocks, and the in-memory account trie EMPTY although accounts
+// exist on disk - the state of a node that has just been started.
+//   hard: new directory, genesis written and stabilised, Close(), NewChainDataBase() again.
+//   soft (after the first behaviour of a process, only if the previous one ended normally): the open
+//         database is kept; a new child R of the current stable block writes sv for this behaviour's own
+//         addresses and is stabilised (which prunes every leftover block), then LastConfirm's account trie
+//         is replaced by an empty one - exactly what reopening does to it (NewGenesisBlock).  R is id 0.
+// The Restart ACTION always really closes and reopens the database.
 func (s *sys) reset(sv []int) engine.Fields {
-	s.closeDB()
-	base := os.Getenv("VERIF_SCRATCH_DIR")
-	if base == "" {
-		base = filepath.Join(os.TempDir(), "forkview")
-	}
-	s.seq++
-	s.dir = filepath.Join(base, fmt.Sprintf("fv.%d.%d", os.Getpid(), s.seq%2))
-	if err := os.RemoveAll(s.dir); err != nil {
-		engine.Failf("rm %s: %v", s.dir, err)
-	}
 	tab, ok := tables[s.table]
 	if !ok || len(sv) > len(tab) {
 		engine.Failf("address table %q has no %d addresses", s.table, len(sv))
 	}
+	s.hist++
 	s.addrs = s.addrs[:0]
 	hexes := []string{}
 	for i := range sv {
-		s.addrs = append(s.addrs, common.HexToAddress("0x"+tab[i]))
-		hexes = append(hexes, "0x"+tab[i])
+		h := "0x" + variant(tab[i], s.hist)
+		s.addrs = append(s.addrs, common.HexToAddress(h))
+		hexes = append(hexes, h)
 	}
-	s.db = store.NewChainDataBase(s.dir)
-	g := &types.Block{Header: &types.Header{Height: 0, Extra: "b0"}}
-	s.blocks = []*types.Block{g}
-	s.ids = map[common.Hash]int{g.Hash(): 0}
-	if err := s.db.SetBlock(g.Hash(), g); err != nil {
-		engine.Failf("genesis SetBlock: %v", err)
+	mode := "hard"
+	if s.soft && s.db != nil && !s.dirty {
+		mode = "soft"
+		lb, err := s.db.LoadLatestBlock()
+		if err != nil {
+			engine.Failf("soft reset: no stable block: %v", err)
+		}
+		r := &types.Block{Header: &types.Header{ParentHash: lb.Hash(), Height: lb.Height() + 1, Time: uint32(s.hist), Extra: fmt.Sprintf("r%d", s.hist)}}
+		if err := s.db.SetBlock(r.Hash(), r); err != nil {
+			engine.Failf("soft reset SetBlock: %v", err)
+		}
+		s.writeInit(r, sv)
+		if _, err := s.db.SetStableBlock(r.Hash()); err != nil {
+			engine.Failf("soft reset SetStableBlock: %v", err)
+		}
+		s.db.LastConfirm.AccountTrieDB.SetTrie(store.NewEmptyDatabase())
+		s.blocks = []*types.Block{r}
+		s.ids = map[common.Hash]int{r.Hash(): 0}
+	} else {
+		if s.db != nil && !s.dirty {
+			s.closeDB()
+		}
+		s.db, s.dirty = nil, false // after a panic the old handle is abandoned
+		base := os.Getenv("VERIF_SCRATCH_DIR")
+		if base == "" {
+			base = filepath.Join(os.TempDir(), "forkview")
+		}
+		s.seq++
+		s.dir = filepath.Join(base, fmt.Sprintf("fv.%d.%d", os.Getpid(), s.seq%2))
+		if err := os.RemoveAll(s.dir); err != nil {
+			engine.Failf("rm %s: %v", s.dir, err)
+		}
+		s.db = store.NewChainDataBase(s.dir)
+		g := &types.Block{Header: &types.Header{Height: 0, Extra: "b0"}}
+		s.blocks = []*types.Block{g}
+		s.ids = map[common.Hash]int{g.Hash(): 0}
+		if err := s.db.SetBlock(g.Hash(), g); err != nil {
+			engine.Failf("genesis SetBlock: %v", err)
+		}
+		s.writeInit(g, sv)
+		if _, err := s.db.SetStableBlock(g.Hash()); err != nil {
+			engine.Failf("genesis SetStableBlock: %v", err)
+		}
+		s.closeDB()
+		s.db = store.NewChainDataBase(s.dir)
 	}
-	v, err := s.db.GetActDatabase(g.Hash())
+	fl := engine.Fields{"naddr": len(sv), "sv": sv, "addrs": hexes, "mode": mode, "err": ""}
+	s.observe(fl)
+	return fl
+}
+
+func (s *sys) writeInit(b *types.Block, sv []int) {
+	v, err := s.db.GetActDatabase(b.Hash())
 	if err != nil {
-		engine.Failf("genesis view: %v", err)
+		engine.Failf("initial view: %v", err)
 	}
 	for i, x := range sv {
 		if x != 0 {
-			v.Put(account(s.addrs[i], x), 0)
+			v.Put(account(s.addrs[i], x), b.Height())
 		}
 	}
-	if _, err := s.db.SetStableBlock(g.Hash()); err != nil {
-		engine.Failf("genesis SetStableBlock: %v", err)
-	}
-	s.db.Close()
-	s.db = store.NewChainDataBase(s.dir)
-	fl := engine.Fields{"naddr": len(sv), "sv": sv, "addrs": hexes, "err": ""}
-	s.observe(fl)
-	return fl
 }
 
 func (s *sys) idOf(h common.Hash) int {
@@ -294,10 +360,34 @@ func (s *sys) setStable(b int) engine.Fields {
 }
 
 func (s *sys) restart() engine.Fields {
-	s.db.Close()
+	s.closeDB()
 	s.db = store.NewChainDataBase(s.dir)
 	fl := engine.Fields{"err": ""}
 	s.observe(fl)
+	return fl
+}
+
+// do performs one spec action on the real system.  dirty stays set when the real code panics.
+func (s *sys) do(ev string, a []int) engine.Fields {
+	need := map[string]int{"AddBlock": 1, "Put": 2, "Get": 2, "SetStable": 1, "Restart": 0}
+	if n, ok := need[ev]; !ok || len(a) != n {
+		engine.Failf("bad action %s%v", ev, a)
+	}
+	s.dirty = true
+	var fl engine.Fields
+	switch ev {
+	case "AddBlock":
+		fl = s.addBlock(a[0])
+	case "Put":
+		fl = s.put(a[0], a[1])
+	case "Get":
+		fl = s.get(a[0], a[1])
+	case "SetStable":
+		fl = s.setStable(a[0])
+	case "Restart":
+		fl = s.restart()
+	}
+	s.dirty = false
 	return fl
 }
 
@@ -313,20 +403,11 @@ func (a *adapter) Reset(init map[string]tla.Value) (engine.Fields, error) {
 }
 
 func (a *adapter) Apply(st engine.Step) (engine.Fields, error) {
-	arg := st.Act.Args
-	switch st.Act.Name {
-	case "AddBlock":
-		return a.s.addBlock(arg[0].I()), nil
-	case "Put":
-		return a.s.put(arg[0].I(), arg[1].I()), nil
-	case "Get":
-		return a.s.get(arg[0].I(), arg[1].I()), nil
-	case "SetStable":
-		return a.s.setStable(arg[0].I()), nil
-	case "Restart":
-		return a.s.restart(), nil
+	args := make([]int, len(st.Act.Args))
+	for i, x := range st.Act.Args {
+		args[i] = x.I()
 	}
-	return nil, fmt.Errorf("unknown action %s", st.Act.Name)
+	return a.s.do(st.Act.Name, args), nil
 }
 
 func (a *adapter) Close() {
@@ -347,6 +428,8 @@ func driveRand(args []string) error {
 	maxLive := fs.Int("maxlive", 7, "")
 	maxWrites := fs.Int("maxwrites", 4, "")
 	table := fs.String("table", "wide", "")
+	hard := fs.Bool("hard", false, "new database directory and real reopen for every history")
+	pRestart := fs.Int("restart", 2, "percent of steps that really close and reopen the database")
 	if err := fs.Parse(args); err != nil {
 		return err
 	}
@@ -359,7 +442,7 @@ func driveRand(args []string) error {
 	defer w.Flush()
 	enc := json.NewEncoder(w)
 	rng := rand.New(rand.NewSource(*seed))
-	s := &sys{table: *table}
+	s := &sys{table: *table, soft: !*hard}
 	defer func() {
 		s.closeDB()
 		s.rmDirs()
@@ -441,25 +524,13 @@ func driveRand(args []string) error {
 					continue
 				}
 				ev, a = "SetStable", []int{l[rng.Intn(len(l))]}
-			case r < 98:
+			case r < 96+*pRestart:
 				ev = "Restart"
 				a = []int{}
 			default:
 				continue
 			}
-			fl, pmsg := safe(func() engine.Fields {
-				switch ev {
-				case "AddBlock":
-					return s.addBlock(a[0])
-				case "Put":
-					return s.put(a[0], a[1])
-				case "Get":
-					return s.get(a[0], a[1])
-				case "SetStable":
-					return s.setStable(a[0])
-				}
-				return s.restart()
-			})
+			fl, pmsg := safe(func() engine.Fields { return s.do(ev, a) })
 			if pmsg != "" {
 				fl = engine.Fields{"panic": pmsg}
 				panics++
@@ -516,7 +587,8 @@ func safe(f func() engine.Fields) (fl engine.Fields, pmsg string) {
 }
 
 func init() {
-	engine.Register("forkview", func() engine.Adapter { return &adapter{s: sys{table: "wide"}} })
-	engine.Register("forkview-deep", func() engine.Adapter { return &adapter{s: sys{table: "deep"}} })
+	soft := os.Getenv("VERIF_FORKVIEW_HARD") == ""
+	engine.Register("forkview", func() engine.Adapter { return &adapter{s: sys{table: "wide", soft: soft}} })
+	engine.Register("forkview-deep", func() engine.Adapter { return &adapter{s: sys{table: "deep", soft: soft}} })
 	engine.RegisterDriver("forkview-rand", driveRand)
 }
